@@ -30,6 +30,11 @@ func SetEpoch(e string) {
 		PastEpoch = true
 		T0 = time.Date(2000, 1, 1, 0, 0, 0, 0, time.UTC)
 	}
+	if e == "zero" {
+		// the substitute clock starts at the zero time.Time (what an untouched mock clock reads): a value, like any other
+		PastEpoch = true
+		T0 = time.Time{}
+	}
 }
 
 // TS is a timestamp: T0 + S seconds + N nanoseconds (two fields so that
